@@ -166,33 +166,30 @@ pub fn vector_mut_copy(vm: &mut Vm) -> Result<VCell, Error> {
     let to_vector = pop_vector(vm)?;
     let to_vector = to_vector.as_ref();
 
-    if at > to_vector.len() - 1 {
-        return Err(InvalidVectorIndex(at, to_vector.len()));
-    }
-
-    match (start, end) {
-        (Some(start), _) if start > from_vector.len() - 1 => {
-            return Err(InvalidVectorIndex(start, from_vector.len()));
-        }
-        (_, Some(end)) if end > from_vector.len() => {
-            return Err(InvalidVectorIndex(end, from_vector.len()));
-        }
-        (Some(start), Some(end)) if start > end => {
-            return Err(InvalidSyntax("vector-copy! requires start <= end".into()));
-        }
-        _ => {}
-    }
-
     let start = start.unwrap_or(0);
     let end = end.unwrap_or_else(|| from_vector.len());
 
-    if ((end - start) > to_vector.len()) || (at + end) > to_vector.len() {
+    if at > to_vector.len() {
+        return Err(InvalidVectorIndex(at, to_vector.len()));
+    }
+    if start > from_vector.len() {
+        return Err(InvalidVectorIndex(start, from_vector.len()));
+    }
+    if end > from_vector.len() {
+        return Err(InvalidVectorIndex(end, from_vector.len()));
+    }
+    if start > end {
+        return Err(InvalidSyntax("vector-copy! requires start <= end".into()));
+    }
+    if (end - start) > (to_vector.len() - at) {
         return Err(InvalidSyntax("vector-copy!: to vector is too small".into()));
     }
 
-    for i in start..end {
-        let val = from_vector.get(i).unwrap();
-        to_vector.put(i + at, val);
+    // Read the source range first so that overlapping copies within one vector
+    // behave as if copied through a temporary.
+    let values: Vec<VCell> = (start..end).map(|i| from_vector.get(i).unwrap()).collect();
+    for (offset, val) in values.into_iter().enumerate() {
+        to_vector.put(at + offset, val);
     }
 
     Ok(VCell::Void)
